@@ -16,7 +16,7 @@ def run(ctx):
             exp = ec.expected_after_change(st, prev[0]); missing = exp - set(b.started)
             ran_restat = {prod[o].idx for o in b.started if o in prod and g.eff_restat(prod[o])}
             def below_restat(e, seen=()):
-                for i in e.exp + g.eff_imp(e):
+                for i in e.exp + g.eff_imp(e) + e.hidden:
                     p = prod.get(i)
                     if p is None or p.idx in seen: continue
                     if p.idx in ran_restat or below_restat(p, seen + (e.idx,)): return True
